@@ -26,7 +26,10 @@ Inductive cmd :=
 | Skip | Call (aw : bool) (l : nat) | Eff (e : eff) | Seq (a b : cmd) | Choice (a b : cmd)
 | TryFinally (body fin : cmd)
 | TryExcept (body : cmd) (catch_cancel : bool) (handler : cmd) (reraise : bool)
-| Loop (body : cmd) | Raise | Return.
+| Loop (body : cmd) | Raise | Return
+| Scope (c : cmd)                       (* an inlined call: its `return` ends the callee only *)
+| IfHeld (r : res) (a b : cmd)          (* `if x:` on a variable that is set iff resource r is held *)
+| IfWritten (f : fld) (a b : cmd).      (* same for a tracked field/flag *)
 
 Inductive outcome := Normal | Exn | Cancel | Ret.
 
@@ -51,7 +54,12 @@ Inductive exec : cmd -> st -> outcome -> st -> Prop :=
 | ELoopS body s s1 o s2 : exec body s Normal s1 -> exec (Loop body) s1 o s2 -> exec (Loop body) s o s2
 | ELoopA body s o s1 : exec body s o s1 -> o <> Normal -> exec (Loop body) s o s1
 | ERaise s : exec Raise s Exn s
-| EReturn s : exec Return s Ret s.
+| EReturn s : exec Return s Ret s
+| EScope c s o s1 : exec c s o s1 -> exec (Scope c) s (match o with Ret => Normal | _ => o end) s1
+| EIfHeldT q a b s o s1 : existsb (Nat.eqb q) (held s) = true -> exec a s o s1 -> exec (IfHeld q a b) s o s1
+| EIfHeldF q a b s o s1 : existsb (Nat.eqb q) (held s) = false -> exec b s o s1 -> exec (IfHeld q a b) s o s1
+| EIfWrittenT w a b s o s1 : existsb (Nat.eqb w) (written s) = true -> exec a s o s1 -> exec (IfWritten w a b) s o s1
+| EIfWrittenF w a b s o s1 : existsb (Nat.eqb w) (written s) = false -> exec b s o s1 -> exec (IfWritten w a b) s o s1.
 
 (* ---- collecting analysis: sets of states per outcome, as lists ---- *)
 Record result := { rN : list st; rE : list st; rC : list st; rR : list st }.
@@ -103,6 +111,16 @@ Fixpoint an (c : cmd) (A : list st) : option result :=
       | None => None end
   | Raise => Some {| rN := []; rE := A; rC := []; rR := [] |}
   | Return => Some {| rN := []; rE := []; rC := []; rR := A |}
+  | Scope c0 => match an c0 A with None => None | Some r =>
+                  Some {| rN := rN r ++ rR r; rE := rE r; rC := rC r; rR := [] |} end
+  | IfHeld r a b =>
+      match an a (filter (fun s => existsb (Nat.eqb r) (held s)) A),
+            an b (filter (fun s => negb (existsb (Nat.eqb r) (held s))) A) with
+      | Some ra, Some rb => Some (union ra rb) | _, _ => None end
+  | IfWritten f a b =>
+      match an a (filter (fun s => existsb (Nat.eqb f) (written s)) A),
+            an b (filter (fun s => negb (existsb (Nat.eqb f) (written s))) A) with
+      | Some ra, Some rb => Some (union ra rb) | _, _ => None end
   end.
 End An.
 
@@ -211,5 +229,68 @@ Proof.
     destruct o; simpl in *; congruence.
   - simpl in Han. inversion Han; subst; simpl; auto.
   - simpl in Han. inversion Han; subst; simpl; auto.
+  - (* Scope *) simpl in Han. destruct (an c A) as [r0|] eqn:Ec; [|discriminate]. inversion Han; subst; clear Han.
+    destruct IHexec as [I _]. specialize (I _ _ HA Ec).
+    destruct o; simpl in *; auto; apply in_or_app; auto.
+  - (* IfHeld true *) simpl in Han.
+    destruct (an a (filter (fun s0 => existsb (Nat.eqb q) (held s0)) A)) as [ra|] eqn:Ea; [|discriminate].
+    destruct (an b (filter (fun s0 => negb (existsb (Nat.eqb q) (held s0))) A)) as [rb|] eqn:Eb; [|discriminate].
+    inversion Han; subst; clear Han. destruct IHexec as [I _].
+    assert (HF: In s (filter (fun s0 => existsb (Nat.eqb q) (held s0)) A)) by (apply filter_In; auto).
+    specialize (I _ _ HF Ea). destruct o; simpl; apply in_or_app; auto.
+  - (* IfHeld false *) simpl in Han.
+    destruct (an a (filter (fun s0 => existsb (Nat.eqb q) (held s0)) A)) as [ra|] eqn:Ea; [|discriminate].
+    destruct (an b (filter (fun s0 => negb (existsb (Nat.eqb q) (held s0))) A)) as [rb|] eqn:Eb; [|discriminate].
+    inversion Han; subst; clear Han. destruct IHexec as [I _].
+    assert (HF: In s (filter (fun s0 => negb (existsb (Nat.eqb q) (held s0))) A)) by (apply filter_In; split; [auto|now rewrite H]).
+    specialize (I _ _ HF Eb). destruct o; simpl; apply in_or_app; auto.
+  - (* IfWritten true *) simpl in Han.
+    destruct (an a (filter (fun s0 => existsb (Nat.eqb w) (written s0)) A)) as [ra|] eqn:Ea; [|discriminate].
+    destruct (an b (filter (fun s0 => negb (existsb (Nat.eqb w) (written s0))) A)) as [rb|] eqn:Eb; [|discriminate].
+    inversion Han; subst; clear Han. destruct IHexec as [I _].
+    assert (HF: In s (filter (fun s0 => existsb (Nat.eqb w) (written s0)) A)) by (apply filter_In; auto).
+    specialize (I _ _ HF Ea). destruct o; simpl; apply in_or_app; auto.
+  - (* IfWritten false *) simpl in Han.
+    destruct (an a (filter (fun s0 => existsb (Nat.eqb w) (written s0)) A)) as [ra|] eqn:Ea; [|discriminate].
+    destruct (an b (filter (fun s0 => negb (existsb (Nat.eqb w) (written s0))) A)) as [rb|] eqn:Eb; [|discriminate].
+    inversion Han; subst; clear Han. destruct IHexec as [I _].
+    assert (HF: In s (filter (fun s0 => negb (existsb (Nat.eqb w) (written s0))) A)) by (apply filter_In; split; [auto|now rewrite H]).
+    specialize (I _ _ HF Eb). destruct o; simpl; apply in_or_app; auto.
 Qed.
 End Sound.
+
+(* A decidable property of (outcome, final state) checked on the analyser's result holds for
+   every execution: this is how "for every fault / cancellation placement" is discharged. *)
+Definition check (P : outcome -> st -> bool) (r : result) : bool :=
+  forallb (P Normal) (rN r) && forallb (P Exn) (rE r) && forallb (P Cancel) (rC r) && forallb (P Ret) (rR r).
+
+Theorem check_sound fuel c s0 r P :
+  an fuel c [s0] = Some r -> check P r = true ->
+  forall o s', exec c s0 o s' -> P o s' = true.
+Proof.
+  intros Han Hc o s' Hex.
+  destruct (an_sound fuel c s0 o s' Hex) as [I _].
+  specialize (I [s0] r (or_introl eq_refl) Han).
+  unfold check in Hc. apply andb_prop in Hc as [Hc HR]. apply andb_prop in Hc as [Hc HC].
+  apply andb_prop in Hc as [HN HE].
+  destruct o; simpl in I;
+    [rewrite forallb_forall in HN; now apply HN
+    |rewrite forallb_forall in HE; now apply HE
+    |rewrite forallb_forall in HC; now apply HC
+    |rewrite forallb_forall in HR; now apply HR].
+Qed.
+
+Definition s_init : st := {| held := []; written := [] |}.
+Definition has (x : nat) (l : list nat) : bool := existsb (Nat.eqb x) l.
+
+(* C18: nothing is held at any exit *)
+Definition P_balanced (_ : outcome) (s : st) : bool := match held s with [] => true | _ => false end.
+(* C08: a failing or cancelled run has written nothing *)
+Definition P_all_or_nothing (o : outcome) (s : st) : bool :=
+  match o with
+  | Exn | Cancel => match written s with [] => true | _ => false end
+  | _ => true
+  end.
+(* C06: field [k] (keys enabled) is only ever written after field [v] (verified) *)
+Definition P_requires (k v : fld) (_ : outcome) (s : st) : bool :=
+  if has k (written s) then has v (written s) else true.
